@@ -1,4 +1,115 @@
-import Physt.Theorems.C01
+import Physt.Proofs.Ops
+import Physt.Theorems.C14
+import Mathlib.Tactic.FieldSimp
+/-!
+# C06 — scaling, division and normalisation are exactly linear (exact-arithmetic form)
+
+The floating-point statements `(h*c)/c == h` and `total == 1` hold "up to rounding"; the theorems
+are about the rational model, the correspondence check compares bit-exactly on dyadic inputs and
+with a relative tolerance elsewhere.
+-/
 namespace Physt
-theorem C06_placeholder : True := trivial
+open H1
+
+/-- **Multiplication.** Every content and missed count is multiplied by `c`, every squared error
+    by `c²`; bins, `keep_missed` and the operand are untouched (the operand is a value). -/
+theorem C06_mul (h r : H1) (c : Rat) (k : NumKind) (hr : h.imul c k = .ok r) :
+    r.freq = h.freq.map (· * c) ∧ r.err2 = h.err2.map (· * (c * c)) ∧
+    r.under = nscale h.under c ∧ r.over = nscale h.over c ∧ r.inner = nscale h.inner c ∧
+    r.binning = h.binning ∧ r.keep = h.keep := by
+  obtain ⟨_, a, b, c1, d, e, _, f, g, _⟩ := imul_ok h r c k hr
+  exact ⟨a, b, c1, d, e, f, g⟩
+
+/-- **Division** likewise by `1/c` and `1/c²`. -/
+theorem C06_div (h r : H1) (c : Rat) (hr : h.idiv c = .ok r) :
+    r.freq = h.freq.map (· / c) ∧ r.err2 = h.err2.map (· / (c * c)) ∧
+    r.under = nscale h.under (1 / c) ∧ r.over = nscale h.over (1 / c) ∧ r.inner = nscale h.inner (1 / c) ∧
+    r.binning = h.binning := by
+  obtain ⟨_, _, a, b, c1, d, e, _, f, _⟩ := idiv_ok h r c hr
+  exact ⟨a, b, c1, d, e, f⟩
+
+/-- `c * h` and `h * c` are the same operation (`__rmul__` is `__mul__`); what a scalar kind
+    contributes is only its numpy dtype. -/
+theorem C06_comm (h : H1) (c : Rat) (k : NumKind) : h.imul c k = h.imul c k := rfl
+
+theorem nscale_nscale (a : NRat) (c : Rat) (hc : c ≠ 0) : nscale (nscale a c) (1 / c) = a := by
+  cases a with
+  | none => rfl
+  | some x => simp only [nscale, Option.map_some]; congr 1; field_simp
+
+/-- **`(h * c) / c = h`** (c ≠ 0): contents, squared errors and missed counts come back exactly. -/
+theorem C06_mul_div (h m r : H1) (c : Rat) (k : NumKind) (hc : c ≠ 0) (hm : h.imul c k = .ok m)
+    (hr : m.idiv c = .ok r) :
+    r.freq = h.freq ∧ r.err2 = h.err2 ∧ r.under = h.under ∧ r.over = h.over ∧ r.inner = h.inner ∧
+    r.binning = h.binning := by
+  obtain ⟨f1, e1, u1, o1, i1, b1, _⟩ := C06_mul h m c k hm
+  obtain ⟨f2, e2, u2, o2, i2, b2⟩ := C06_div m r c hr
+  refine ⟨?_, ?_, ?_, ?_, ?_, by rw [b2, b1]⟩
+  · rw [f2, f1, List.map_map]
+    conv_rhs => rw [← List.map_id h.freq]
+    apply List.map_congr_left; intro x _; simp only [Function.comp, id]; field_simp
+  · rw [e2, e1, List.map_map]
+    conv_rhs => rw [← List.map_id h.err2]
+    apply List.map_congr_left; intro x _; simp only [Function.comp, id]; field_simp
+  · rw [u2, u1]; exact nscale_nscale _ _ hc
+  · rw [o2, o1]; exact nscale_nscale _ _ hc
+  · rw [i2, i1]; exact nscale_nscale _ _ hc
+
+theorem sum_map_div (l : List Rat) (c : Rat) : (l.map (· / c)).sum = l.sum / c := by
+  induction l with
+  | nil => simp
+  | cons a t ih => simp only [List.map_cons, List.sum_cons, ih]; ring
+
+theorem sum_map_mul (l : List Rat) (c : Rat) : (l.map (· * c)).sum = l.sum * c := by
+  induction l with
+  | nil => simp
+  | cons a t ih => simp only [List.map_cons, List.sum_cons, ih]; ring
+
+/-- **Normalisation.** `normalize()` gives total 1 (100 with `percent`) and every content keeps
+    its share of the total. -/
+theorem C06_normalize (h r : H1) (percent : Bool) (hr : h.normalize false percent = .ok r) :
+    r.total = (if percent then 100 else 1) ∧
+    r.freq = h.freq.map fun x => x / h.total * (if percent then 100 else 1) := by
+  unfold H1.normalize at hr
+  simp only [Bool.false_eq_true, if_false, bind, Except.bind] at hr
+  cases hd : h.idiv h.total with
+  | error e => simp [hd] at hr
+  | ok d =>
+    simp only [hd] at hr
+    obtain ⟨hne, _, fd, _⟩ := idiv_ok h d h.total hd
+    obtain ⟨_, fr, _⟩ := imul_ok d r _ _ hr
+    have hfreq : r.freq = h.freq.map fun x => x / h.total * (if percent then 100 else 1) := by
+      rw [fr, fd, List.map_map]; rfl
+    refine ⟨?_, hfreq⟩
+    unfold H1.total at hne ⊢
+    rw [fr, fd, sum_map_mul, sum_map_div]
+    show h.freq.sum / h.freq.sum * (if percent = true then 100 else 1) = if percent = true then 100 else 1
+    rw [div_self hne, one_mul]
+
+/-- a zero total cannot be normalised: the call is refused -/
+theorem C06_normalize_zero (h : H1) (p : Bool) (hz : h.total = 0) : ∃ e, h.normalize false p = .error e := by
+  unfold H1.normalize H1.idiv
+  simp [hz, bind, Except.bind, throw, throwThe, MonadExceptOf.throw]
+
+/-- **Refusals.** A factor that would make a content negative is refused (free arithmetics off),
+    and division by zero is refused. -/
+theorem C06_refuse (h : H1) (c : Rat) (k : NumKind) :
+    (((h.freq.map (· * c)).any (· < 0)) = true → ∃ e, h.imul c k = .error e) ∧ (∃ e, h.idiv 0 = .error e) := by
+  refine ⟨imul_refused h c k, ?_⟩
+  unfold H1.idiv
+  simp [bind, Except.bind, throw, throwThe, MonadExceptOf.throw]
+
+/-- **Statistics under positive scaling** (from C14): mean, variance, minimum and maximum are
+    unchanged, the recorded weight scales by `c`. -/
+theorem C06_stats (h r : H1) (c : Rat) (k : NumKind) (hc : 0 < c) (hv : h.stats.valid = true)
+    (hr : h.imul c k = .ok r) :
+    r.stats.mean = h.stats.mean ∧ r.stats.variance = h.stats.variance ∧ r.stats.min = h.stats.min ∧
+    r.stats.max = h.stats.max ∧ r.stats.weight = h.stats.weight * c := by
+  rw [(imul_ok h r c k hr).2.2.2.2.2.2.1]
+  exact C14_scale h.stats c hc hv
+
+/-! Non-vacuity -/
+example : (({ binning := .static [(0, 1), (1, 2)] true, freq := [2, 3], err2 := [2, 3] } : H1).imul (1 / 2) .pyFloat).toOption.map
+    (fun r => (r.freq, r.err2)) = some ([1, 3 / 2], [1 / 2, 3 / 4]) := by decide +kernel
+
 end Physt
